@@ -77,8 +77,12 @@ pub enum Action<E: Effect> {
         captures: Vec<Value>,
         argument: Value,
     },
-    /// Deliver a message to a target process
-    Deliver { target: ProcessId, value: Value },
+    /// Deliver a message from a process to a target process
+    Deliver {
+        sender: ProcessId,
+        target: ProcessId,
+        value: Value,
+    },
     /// Request the result of one or more target processes
     Await {
         targets: Vec<ProcessId>,
